@@ -12,6 +12,7 @@ from __future__ import annotations
 
 import ast
 import time
+from fractions import Fraction
 
 import numpy as np
 
@@ -530,4 +531,138 @@ def _replay_kinetic(o, cls_name):
         o["witness"] = dict(o.get("witness") or {}, native=dict(system="2-site Hubbard U=4, dt=0.05, rdm1 up diag(0.8,0.2) dn diag(0.3,0.7), chol = sqrt(U) e_i e_i^T",
                                                                 exp_h1_up=E[0].tolist(), expm_minus_dt_K_over_2=ref.tolist(), not_proportional_by=dev))
     except Exception as e:  # noqa
+        o["witness"] = dict(o.get("witness") or {}, native_error=repr(e)[:300])
+
+
+def tail(cls_name="propagator_cpmc", kind="uhf_cpmc", norb=2):
+    """C10.cpmc.tail.<cls>: after the one-body halves and the site loop (both passed through here: their contracts are cpmc.K / cpmc.site.*),
+    the REAL propagate multiplies every weight by exp(dt * E_shift) with E_shift = pop_control_ene_shift (NOT the running energy estimate),
+    zeroes weights above 100, and sets  pop_control_ene_shift' = e_estimate - 0.1 log(sum(w') / n_walkers) / dt."""
+    t0 = time.time()
+    H.setup_repo()
+    import jax
+    import jax.numpy as jnp
+    from ad_afqmc import wavefunctions as wf, propagation
+    nel, nw, dt = (1, 1), 2, 0.05
+    E_shift, E_est = 0.4375, -1.28125           # distinct dyadic values: exp(dt * .) is computed natively inside the traced function
+    inp = H.Inputs(6)
+    hwu, hwd = inp.declare("wu", (nw, norb, 1)), inp.declare("wd", (nw, norb, 1))
+    hw, hlg = inp.declare("wt", (nw,)), inp.declare("lg", ())
+    hh = inp.declare("h", (2, 2))
+    inp.build()
+    sp = inp.sp
+    trial = getattr(wf, kind)(norb, nel)
+    pcls = getattr(propagation, cls_name)
+    prop = pcls(dt=dt, n_walkers=nw)
+    rng = np.random.default_rng(1)
+    mo = [rng.normal(size=(norb, 1)), rng.normal(size=(norb, 1))]
+    wave_x = dict(mo_coeff=[jnp.asarray(mo[0]), jnp.asarray(mo[1])]) if kind == "uhf_cpmc" else dict(mo_coeff=jnp.asarray(rng.normal(size=(2 * norb, 2))))
+    wave_s = jax.tree_util.tree_map(lambda a: np.asarray(a), wave_x)
+    G = np.zeros((nw, 2, norb, norb)) if kind == "uhf_cpmc" else np.zeros((nw, 2 * norb, 2 * norb))
+    ov = np.ones(nw)
+    pd_s = dict(walkers=[hwu["V"].s, hwd["V"].s], weights=hw["V"].s, overlaps=ov, greens=G, hs_constant=hh["V"].s,
+                pop_control_ene_shift=np.array(E_shift), e_estimate=np.array(E_est))
+    pd_x = dict(walkers=[jnp.asarray(hwu["V"].x), jnp.asarray(hwd["V"].x)], weights=jnp.asarray(hw["V"].x), overlaps=jnp.asarray(ov), greens=jnp.asarray(G),
+                hs_constant=jnp.asarray(hh["V"].x), pop_control_ene_shift=jnp.asarray(E_shift), e_estimate=jnp.asarray(E_est))
+    ham_x = dict(exp_h1=jnp.array([jnp.eye(norb), jnp.eye(norb)]))      # no scalar leaves: the one-body pass-through matches leaves by shape
+    ham_s = dict(exp_h1=np.array([np.eye(norb), np.eye(norb)]))
+    logs, seen = [], dict(scans=0, caps=0)
+
+    class Or:
+        def primitive(self, it, p, e, ins):
+            if p in ("gt", "lt", "ge", "le"):
+                a, b = ins
+                lit = [float(np.real(x)) for x in (a, b) if not is_obj(x) and np.ndim(x) == 0]
+                if lit and lit[0] in (100.0, 1.0e-8):
+                    seen["caps"] += (lit[0] == 100.0)
+                    return np.zeros(np.broadcast(np.asarray(a, dtype=object), np.asarray(b, dtype=object)).shape, dtype=bool)   # no cap active
+            if p == "log" and is_obj(ins[0]):
+                logs.append(ins[0])
+                return hlg["V"].s.reshape(np.shape(ins[0]))
+            return None
+
+    def one_body(it, e, ins):
+        res, j = [], 0
+        for ovv in e.outvars:
+            while j < len(ins) and tuple(np.shape(ins[j])) != tuple(ovv.aval.shape):
+                j += 1
+            res.append(ins[j])
+            j += 1
+        return res
+
+    def scan_hook(it, e, ins):
+        P = e.params
+        consts, carry, xs = [list(t) for t in P["ft_in"].update(ins).unpack()]
+        seen["scans"] += 1
+        ncar = len(carry)
+        return list(carry) + [np.zeros(v.aval.shape, dtype=v.aval.dtype) for v in e.outvars[ncar:]]
+    name = f"C10.cpmc.tail.{cls_name}[{kind}]"
+    fns = [f"propagation.{cls_name}.propagate"]
+    fields = np.zeros((nw, norb))
+    try:
+        out, it = evaluate(sp, lambda hm, pdd, ff, wv: prop.propagate(trial, hm, pdd, ff, wv), (ham_s, pd_s, fields, wave_s), (ham_x, pd_x, jnp.asarray(fields), wave_x),
+                           intercept={"propagate_one_body": one_body}, series=Or(), scan_hook=scan_hook)
+    except Unsupported as ex:
+        return [ob(name + ".weights", UNDECIDED, kind="bounded", backend="ring", detail=f"Unsupported: {ex}", functions=fns, wall=time.time() - t0)]
+    if seen["scans"] == 0:
+        return [ob(name + ".weights", UNDECIDED, kind="bounded", detail="no site scan seen", functions=fns)]
+    w_in, w_out = hw["V"].s, np.asarray(out["weights"], dtype=object)
+    want = float(np.exp(dt * E_shift))
+    ratios = [complex(inp.val(w_out[k] / w_in[k])) for k in range(nw)]
+    indep = all(((w_out[k] / w_in[k]) - sp.const(ratios[k].real)).iszero() for k in range(nw)) if all(abs(r.imag) < 1e-15 for r in ratios) else False
+    ok = indep and all(abs(r - want) < 1e-13 for r in ratios)
+    obs = []
+    o = ob(name + ".weights", DISCHARGED if ok else REFUTED, kind="bounded", backend="ring", wall=time.time() - t0, functions=fns,
+           detail=f"weights' / weights = {ratios} ; exp(dt * pop_control_ene_shift) = {want}, exp(dt * e_estimate) = {float(np.exp(dt * E_est))} (dt = {dt}, E_shift = {E_shift}, e_estimate = {E_est}; "
+                  f"{seen['scans']} scans and both one-body halves passed through, {seen['caps']} cap test(s) answered 'inactive')",
+           witness=None if ok else dict(ratio=str(ratios), expected=want), witness_class="" if ok else "tail-rescale")
+    if not ok:
+        _replay_tail(o, cls_name, kind, norb)
+    obs.append(o)
+    # pop_control update
+    if len(logs) == 1:
+        arg = np.asarray(logs[0], dtype=object).reshape(-1)[0]
+        want_arg = sum((w_out[k] for k in range(1, nw)), w_out[0]) * sp.const(Fraction(1, nw))
+        got_shift = np.asarray(out["pop_control_ene_shift"], dtype=object).reshape(-1)[0]
+        want_shift = sp.const(E_est) - hlg["V"].s[()] * sp.const(0.1) * sp.const(Fraction(1, 1) / Fraction(dt))
+        o2 = H.identity(name + ".shift", np.array([arg, got_shift], dtype=object), np.array([want_arg, want_shift], dtype=object), functions=fns, inputs=inp, t0=t0,
+                        note="argument of log == sum(w')/n_walkers and pop_control_ene_shift' == e_estimate - 0.1 log(.)/dt")
+        obs.append(o2)
+    else:
+        obs.append(ob(name + ".shift", UNDECIDED, kind="bounded", detail=f"{len(logs)} symbolic log calls seen", functions=fns))
+    return obs
+
+
+def _replay_tail(o, cls_name, kind, norb):
+    """native replay: one real CPMC step on a small Hubbard system after pop_control_ene_shift and e_estimate have been set apart;
+    the weights must scale by exp(dt * delta) when pop_control_ene_shift is shifted by delta (and not at all when e_estimate is)."""
+    try:
+        from contracts import native
+        native.setup()
+        import jax
+        import jax.numpy as jnp
+        from ad_afqmc import wavefunctions as wf, propagation, hamiltonian
+        n, dt, nw = 2, 0.05, 4
+        trial = wf.uhf_cpmc(n, (1, 1))
+        T = [jnp.array([[1.0], [0.8]]), jnp.array([[0.9], [1.0]])]
+        wave = {"mo_coeff": T, "rdm1": jnp.array([T[0] @ T[0].T / 2, T[1] @ T[1].T / 2])}
+        prop = getattr(propagation, cls_name)(dt=dt, n_walkers=nw)
+        h1 = np.array([[0.0, -1.0], [-1.0, 0.0]])
+        ham_data = {"h0": 0.0, "h1": jnp.array([h1, h1]), "chol": jnp.zeros((1, n * n)), "ene0": 0.0, "u": 4.0, "u_1": 1.0}
+        hh_ = hamiltonian.hamiltonian(n)
+        ham_data = hh_.build_measurement_intermediates(dict(ham_data), trial, wave)
+        ham_data = hh_.build_propagation_intermediates(ham_data, prop, trial, wave)
+        rng = np.random.default_rng(4)
+        walkers = [jnp.array(1.0 + 0.2 * rng.normal(size=(nw, n, 1))) + 0j, jnp.array(1.0 + 0.2 * rng.normal(size=(nw, n, 1))) + 0j]
+        pd = prop.init_prop_data(trial, wave, ham_data, walkers)
+        x = jnp.asarray(np.random.default_rng(0).normal(size=(nw, n)))
+        base = dict(pd, pop_control_ene_shift=jnp.asarray(0.3), e_estimate=jnp.asarray(-0.9))
+        a = np.asarray(prop.propagate(trial, ham_data, dict(base), x, wave)["weights"])
+        b = np.asarray(prop.propagate(trial, ham_data, dict(base, pop_control_ene_shift=jnp.asarray(0.3 + 1.0)), x, wave)["weights"])
+        c = np.asarray(prop.propagate(trial, ham_data, dict(base, e_estimate=jnp.asarray(-0.9 + 1.0)), x, wave)["weights"])
+        good = np.allclose(b, a * np.exp(dt * 1.0), rtol=1e-10) and np.allclose(c, a, rtol=1e-10)
+        o["replayed"] = bool(not good)
+        o["witness"] = dict(o.get("witness") or {}, native=dict(system="2-site Hubbard, U=4, dt=0.05, 4 walkers", weights=a.tolist(), weights_with_E_shift_plus_1=b.tolist(),
+                                                               weights_with_e_estimate_plus_1=c.tolist(), expected_factor=float(np.exp(dt))))
+    except Exception as e:   # noqa
         o["witness"] = dict(o.get("witness") or {}, native_error=repr(e)[:300])
